@@ -311,6 +311,43 @@ fn check_any(m: &mut dr::Module, r: &mut Report, rp: &dyn Fn() -> Json, what: &s
         r.violation(format!("C15:assemble-concat:{}", op), format!("{}: assemble() gives {} words, header ++ assembly of each visited instruction gives {}; first difference at word {} (visited instruction #{}: {})", what, words.len(), concat.len(), at, inst_no, culprit), rp());
         return;
     }
+    // the per-function and per-block assemblies are the corresponding slices; assembling INTO a vector appends
+    let mut off = bounds.get(g.len()).copied().unwrap_or(concat.len());
+    for (fi, f) in m.functions.iter().enumerate() {
+        let fw = f.assemble();
+        let want: Vec<u32> = f.all_inst_iter().flat_map(|i| i.assemble()).collect();
+        if fw != want || words.get(off..off + fw.len()) != Some(&fw[..]) {
+            fail(r, "function-assemble", format!("function {}: Function::assemble() gives {} words, its visited instructions assemble to {} words (module slice at word {})", fi, fw.len(), want.len(), off));
+            return;
+        }
+        let mut pre = vec![0xdead_beef, 7];
+        f.assemble_into(&mut pre);
+        if pre[..2] != [0xdead_beef, 7] || pre[2..] != fw[..] {
+            fail(r, "assemble-into", format!("function {}: assemble_into() on a non-empty vector does not append exactly assemble()", fi));
+            return;
+        }
+        let mut bw: Vec<u32> = vec![];
+        for b in &f.blocks {
+            let one = b.assemble();
+            let want: Vec<u32> = b.label.iter().chain(b.instructions.iter()).flat_map(|i| i.assemble()).collect();
+            if one != want {
+                fail(r, "block-assemble", format!("function {}: Block::assemble() gives {} words, label ++ instructions assemble to {}", fi, one.len(), want.len()));
+                return;
+            }
+            bw.extend(one);
+        }
+        let head: usize = f.def.iter().chain(f.parameters.iter()).map(|i| i.assemble().len()).sum();
+        if fw.get(head..head + bw.len()) != Some(&bw[..]) {
+            fail(r, "block-assemble", format!("function {}: the blocks' assemblies are not the slice of Function::assemble() after definition and parameters", fi));
+            return;
+        }
+        off += fw.len();
+    }
+    let mut pre = vec![1, 2, 3];
+    m.assemble_into(&mut pre);
+    if pre[..3] != [1, 2, 3] || pre[3..] != words[..] {
+        fail(r, "assemble-into", "Module::assemble_into() on a non-empty vector does not append exactly assemble()".into());
+    }
     let rw: Vec<*const dr::Instruction> = m.all_inst_iter_mut().map(|i| i as *const dr::Instruction).collect();
     if rw != expected {
         fail(r, "all_inst_iter_mut", "all_inst_iter_mut visits a different element sequence than all_inst_iter".into());
